@@ -71,7 +71,7 @@ def run(prop, tier, seed, workdir):
                 s.append(rnd.choice(marks))
         strings.append(s[:n])
     # a seeded sample (quick) / all (thorough) of the remaining assigned code points
-    allcps = [cp for cp in range(0x110000) if assigned(cp)]
+    allcps = [cp for cp in range(1, 0x110000) if assigned(cp)]      # U+0000 is the terminator of the interface
     for cp in (allcps if tier != "quick" else rnd.sample(allcps, 6000)):
         strings.append([cp])
     for bad in ([0x110000], [0x41, 0x7FFFFFFF], [0x200000, 0x301], [0xD800], [0x41, 0xDFFF]):
